@@ -43,6 +43,18 @@ import MayVerif.Proof.Queue.TimerList.P_rDec
 import MayVerif.Proof.Queue.TimerList.P_rDrop
 namespace MayVerif.TimerList
 
+/-- the ownership guard of `step` for the drop of the queue: everybody else is outside the queue's operations -/
+theorem quiet_of_guard {nn : Nat} {pcs : Tid → Pc} {t : Tid}
+    (hg : ¬(Env.qdrop = Env.qdrop ∧ (List.range nn).all (fun u => u = t || quiet (pcs u)) = false)) :
+    ∀ u, u < nn → u ≠ t → quiet (pcs u) = true := by
+  intro u hu hut
+  have h1 : (List.range nn).all (fun u => u = t || quiet (pcs u)) = true := by
+    cases hc : (List.range nn).all (fun u => u = t || quiet (pcs u)) with
+    | true => rfl
+    | false => exact absurd ⟨rfl, hc⟩ hg
+  have := List.all_eq_true.mp h1 u (List.mem_range.mpr hu)
+  simpa [hut] using this
+
 theorem inv_step (s s' : St) (t : Tid) (e : Env) (h : Inv s) (hs : step s t e = some s') : Inv s' := by
   obtain ⟨nn, sh, pcs⟩ := s
   simp only [step] at hs
@@ -51,6 +63,7 @@ theorem inv_step (s s' : St) (t : Tid) (e : Env) (h : Inv s) (hs : step s t e = 
   next hlt =>
   split at hs
   · contradiction
+  next hg =>
   split at hs
   · contradiction
   next sh' pc' hts =>
@@ -68,7 +81,7 @@ theorem inv_step (s s' : St) (t : Tid) (e : Env) (h : Inv s) (hs : step s t e = 
     | remove m => exact inv_idle_remove nn sh pcs t m hlt h hpc sh' pc' hts
     | isLink m => exact inv_idle_isLink nn sh pcs t m hlt h hpc sh' pc' hts
     | drop m => exact inv_idle_drop nn sh pcs t m hlt h hpc sh' pc' hts
-    | qdrop => exact inv_idle_qdrop nn sh pcs t hlt h hpc sh' pc' hts
+    | qdrop => exact inv_idle_qdrop nn sh pcs t hlt (quiet_of_guard hg) h hpc sh' pc' hts
     | aba => simp [tstep] at hts
     | go => simp [tstep] at hts
   | ret r => exact inv_ret nn sh pcs t e r hlt h hpc sh' pc' hts
